@@ -1,0 +1,33 @@
+//go:build verif
+
+// Contracts for the verification machinery in /verif (comment-only file; compiled only with -tags verif).
+package tokenhelper
+
+//@ define (isCmp (t Int)) (or (= t token.EQL) (= t token.NEQ) (= t token.LSS) (= t token.GTR) (= t token.LEQ) (= t token.GEQ))
+//@ define (holds (op Int) (a Int) (b Int))
+//@   (ite (= op token.EQL) (= a b)
+//@   (ite (= op token.NEQ) (not (= a b))
+//@   (ite (= op token.LSS) (< a b)
+//@   (ite (= op token.GTR) (> a b)
+//@   (ite (= op token.LEQ) (<= a b)
+//@   (ite (= op token.GEQ) (>= a b) false))))))
+
+//@ func Converse
+//@ prop C19
+//@ pure
+//@ nopanic
+//@ requires (isCmp t)
+//@ ensures cmp-closed (isCmp result)
+//@ ensures converse-flips (forall ((a Int) (b Int)) (= (holds t a b) (holds result b a)))
+
+//@ func Inverse
+//@ prop C19
+//@ pure
+//@ nopanic
+//@ requires (isCmp t)
+//@ ensures cmp-closed (isCmp result)
+//@ ensures inverse-negates (forall ((a Int) (b Int)) (= (holds t a b) (not (holds result a b))))
+
+//@ lemma cmp-ops-distinguishable;C19 :: (forall ((t Int) (u Int)) (=> (and (isCmp t) (isCmp u) (= (holds t 0 0) (holds u 0 0)) (= (holds t 0 1) (holds u 0 1)) (= (holds t 1 0) (holds u 1 0))) (= t u)))
+//@ lemma converse-involution;C19 uses Converse :: (forall ((t Int)) (=> (isCmp t) (= (call Converse (call Converse t)) t)))
+//@ lemma inverse-involution;C19 uses Inverse :: (forall ((t Int)) (=> (isCmp t) (= (call Inverse (call Inverse t)) t)))
